@@ -11,6 +11,12 @@
      resolve CHAIN FLAGS TRANSPORT HTTPMODS WSMODS EXPOSEALL BATCH METHOD [FIRSTPARAM]
          BATCH 0 | 1 (element of a JSON array); METHOD the "method" member; FIRSTPARAM the first parameter if it is a string
        -> invalid | unsubscribe | notfound | callback ns_wire|recv|signs | subscription ns_wire|recv|signs | fail
+     invoke node CHAIN FLAGS TRANSPORT HTTPMODS WSMODS EXPOSEALL BATCH REQ...
+     invoke toy FLAGS CALLER N API1 .. APIN BATCH REQ...     (API as in regseq, methods may carry "=pn.." argument flags)
+         REQ = HEXMETHOD;IDOK;PARAMS   PARAMS = A (absent) | N (null) | O (scalar/object) | L[elem,elem..]
+         elem = S<hex>d|x (string) | Zd|x (null) | Od|x (other); d = decodes into the Go type at its position, x = does not
+       -> BATCH=0: one verdict; BATCH=1: "rejected" or one verdict per REQ separated by blanks
+          verdict = invalidrequest | notfound | invalidparams | unsubscribe | invoked:ns_wire|recv
      envbool unset | HEX        -> 0 | 1          (sense.EnvBool on that value)
      protected NAME             -> 0 | 1          (isProtectedMethodName)
      allowed FLAGS CALLER       -> 0 | 1          (is_allowed: RegisterName's caller-name test)
@@ -52,8 +58,70 @@ let exposed_cached chain fl tr hm wm ea =
 
 let show_entry e = s_of_b (wire_name e) ^ "|" ^ s_of_b e.e_recv ^ "|" ^ bit e.e_signs
 
+let parse_api_spec spec =
+  (match String.split_on_char ':' spec with
+   | [ns; recv; ms] ->
+     let named = List.map (fun n -> match String.split_on_char '=' n with
+                                    | [nm] -> (nm, []) | [nm; fl] -> (nm, List.init (String.length fl) (fun i -> fl.[i] = 'p'))
+                                    | _ -> failwith "method spec") (split_on ',' ms) in
+     ({ a_ns = b_of_s ns; a_recv = b_of_s recv; a_exported = true; a_public = false;
+        a_methods = List.map (fun (n, _) -> { m_name = b_of_s n; m_sub = false; m_signs = false }) named },
+      List.map (fun (n, fl) -> ((recv, n), fl)) named)
+   | _ -> failwith "api spec")
+
+let parse_req tok =
+  (match String.split_on_char ';' tok with
+   | [hm; idok; ps] ->
+     let elem e =
+       let n = String.length e in
+       if n < 2 then failwith "elem" else
+       let dec = (e.[n-1] = 'd') in
+       let kind = (match e.[0] with
+                   | 'S' -> JStr (bytes_of_hex (String.sub e 1 (n - 2)))
+                   | 'Z' -> JNullElem | 'O' -> JOtherElem | _ -> failwith "elem kind") in
+       { j_kind = kind; j_decodes = dec } in
+     let params = (match ps with
+                   | "A" -> JAbsent | "N" -> JNull | "O" -> JScalarOrObject
+                   | _ when String.length ps >= 1 && ps.[0] = 'L' ->
+                     let body = String.sub ps 1 (String.length ps - 1) in
+                     JArray (List.map elem (split_on ',' body))
+                   | _ -> failwith "params") in
+     { q_method = bytes_of_hex hm; q_id_ok = (idok = "1"); q_params = params }
+   | _ -> failwith "req")
+
+let show_verdict = function
+  | VInvalidRequest -> "invalidrequest" | VNotFound -> "notfound" | VInvalidParams -> "invalidparams"
+  | VUnsubscribe -> "unsubscribe"
+  | VInvoked e -> "invoked:" ^ s_of_b (wire_name e) ^ "|" ^ s_of_b e.e_recv
+
+let run_invoke r argtab batch reqs =
+  if batch then
+    (match invoke_batch r argtab reqs with
+     | None -> "rejected"
+     | Some vs -> String.concat " " (List.map show_verdict vs))
+  else (match reqs with [q] -> show_verdict (invoke_single r argtab q) | _ -> failwith "single needs one request")
+
 let handle (toks : String.t list) : String.t =
   match toks with
+  | "invoke" :: "node" :: chain :: fl :: tr :: hm :: wm :: ea :: batch :: reqs ->
+    (match exposed_cached chain fl tr hm wm ea with
+     | None -> "fail"
+     | Some r -> run_invoke r gen_argtab (batch = "1") (List.map parse_req reqs))
+  | "invoke" :: "toy" :: fl :: caller :: n :: rest ->
+    let n = int_of_string n in
+    let specs = List.filteri (fun i _ -> i < n) rest in
+    let tail = List.filteri (fun i _ -> i >= n) rest in
+    (match tail with
+     | batch :: reqs ->
+       let parsed = List.map parse_api_spec specs in
+       let tab = List.concat (List.map snd parsed) in
+       let argtab e = (match List.assoc_opt (s_of_b e.e_recv, s_of_b e.e_go) tab with Some l -> l | None -> []) in
+       let f = flags_of fl in
+       let r0 = new_server f gen_callers.caller_newserver gen_meta_api in
+       (match register_all f (b_of_s caller) r0 (List.map fst parsed) with
+        | None -> "fail"
+        | Some r -> run_invoke r argtab (batch = "1") (List.map parse_req reqs))
+     | [] -> failwith "invoke toy")
   | "resolve" :: chain :: fl :: tr :: hm :: wm :: ea :: batch :: meth :: rest ->
     (match exposed_cached chain fl tr hm wm ea with
      | None -> "fail"
@@ -83,7 +151,7 @@ let handle (toks : String.t list) : String.t =
       (match String.split_on_char ':' spec with
        | [ns; recv; ms] ->
          { a_ns = b_of_s ns; a_recv = b_of_s recv; a_exported = true; a_public = false;
-           a_methods = List.map (fun n -> { m_name = b_of_s n; m_sub = false; m_signs = false }) (split_on ',' ms) }
+           a_methods = List.map (fun n -> { m_name = b_of_s (List.hd (String.split_on_char '=' n)); m_sub = false; m_signs = false }) (split_on ',' ms) }
        | _ -> failwith "regseq api") in
     let f = flags_of fl in
     let r0 = new_server f gen_callers.caller_newserver gen_meta_api in
